@@ -330,7 +330,7 @@ class FilterOutput(Contract):
     without explicit names is refused."""
     name = FO
     properties = ('C18',)
-    variants = ('chi/auto', 'cpd/explicit', 'object/no-names')
+    variants = ('chi/auto', 'cpd/explicit', 'object/no-names', 'chi/good-explicit', 'cpd/bad-explicit')
     loops = {1: EventLoop('records', _fo_check, item=_new_record, havoc=writer_state_cases('fout_good', 'fout_bad'))}
 
     def setup(self, c, variant):
@@ -338,6 +338,11 @@ class FilterOutput(Contract):
             return dict(input_fits='in.fitinfo', output_good='auto', output_bad='auto', chi=c.real('chi'), cpd=None)
         if variant == 'cpd/explicit':
             return dict(input_fits='in.fitinfo', output_good='G', output_bad='B', chi=None, cpd=c.real('cpd'))
+        # one name given, the other left automatic
+        if variant == 'chi/good-explicit':
+            return dict(input_fits='in.fitinfo', output_good='G', output_bad='auto', chi=c.real('chi'), cpd=None)
+        if variant == 'cpd/bad-explicit':
+            return dict(input_fits='in.fitinfo', output_good='auto', output_bad='B', chi=None, cpd=c.real('cpd'))
         M, N = c.int('M'), c.int('N')
         c.assume([M >= 1, N >= 0])
         f = make_fitinfo(c, M, N)
